@@ -82,16 +82,16 @@ type Out struct {
 // StepResult is what one step produced and the state sampled after it.
 type StepResult struct {
 	StateLocked bool // IsLogged() did not return within 2 s
-	Outs     []Out
-	Logged   bool
-	CtxErr   error
-	Events   []utils.Event // events fired during this step
-	RunEnded bool          // the handler's Run loop returned during/before this step
-	RunErr   error
-	Panic    string // panic inside the handler's Run goroutine (library frames), with stack
-	TimedOut bool   // watchdog fired: nothing is known about this step
-	SendErr  error  // result of a local action
-	Took     time.Duration
+	Outs        []Out
+	Logged      bool
+	CtxErr      error
+	Events      []utils.Event // events fired during this step
+	RunEnded    bool          // the handler's Run loop returned during/before this step
+	RunErr      error
+	Panic       string // panic inside the handler's Run goroutine (library frames), with stack
+	TimedOut    bool   // watchdog fired: nothing is known about this step
+	SendErr     error  // result of a local action
+	Took        time.Duration
 }
 
 // StepRig is a real DefaultHandler + Session driven one step at a time.
